@@ -86,6 +86,21 @@ def check_case(kind, depth, acc, apex, cs, part, full_cache):
             if tg.angdist(v, c).max() > 1e-9 or bool(tile.increasing) != inc:
                 bad("leaf-tile-geometry", "leaf %r delivered with corners %.3g rad away from its own tile's (coordinate system %s)" % (pos, tg.angdist(v, c).max(), cs or "astronomical"))
                 break
+    # the module-level counter of tiles matching a filter agrees with the pyramid's own numbers
+    if kind == "filtered" and apex == (0, 0, 0) and depth >= 1:
+        try:
+            from toasty import toast
+
+            accset = set(tuple(a) for a in acc)
+            tf = lambda t: tuple(t.pos) in accset  # noqa: E731
+            kw = {"coordsys": toast.ToastCoordinateSystem.PLANETARY} if cs == "planetary" else {}
+            nb = toast.count_tiles_matching_filter(depth, tf, bottom_only=True, **kw)
+            na = toast.count_tiles_matching_filter(depth, tf, bottom_only=False, **kw)
+            ref_all = len([p for p in model.visited if p[0] >= 1])
+            if nb != n_leaf_ref or na != ref_all:
+                bad("count_tiles_matching_filter", "count_tiles_matching_filter gives %d leaves / %d tiles, the reference %d / %d" % (nb, na, n_leaf_ref, ref_all))
+        except Exception as e:
+            bad("count_tiles_matching_filter-raises:%s" % type(e).__name__, repr(e))
     # a pyramid keeps the coordinate system it was made with: a second pyramid made with the OTHER system after
     # it (and before it is traversed) must not change the tiles the first one hands out
     if kind != "generic" and depth >= 1:
@@ -176,6 +191,13 @@ def check_case(kind, depth, acc, apex, cs, part, full_cache):
     else:
         try:
             with quiet():
+                # counts asked from INSIDE the callbacks of a traversal of the same instance (a progress reporter)
+                re_ops, re_leaves, inner = [], [], []
+                rp = mk()
+                rp.walk(lambda pos: (re_ops.append(tuple(pos)), inner.append(rp.count_operations())), parallel=1)
+                rp.visit_leaves(lambda pos, tile: (re_leaves.append(tuple(pos)), inner.append(rp.count_leaf_tiles())), parallel=1)
+                if sorted(re_ops) != sorted(tuple(p) for p in model.ops) or sorted(re_leaves) != sorted(tuple(p) for p in model.leaves) or any(v not in (n_ops_ref, n_leaf_ref) for v in inner):
+                    bad("history/counting-inside-a-callback", "a traversal whose callback asks the same pyramid for its counts made %d walk / %d leaf callbacks (expected %d / %d), counts seen %r" % (len(re_ops), len(re_leaves), n_ops_ref, n_leaf_ref, sorted(set(inner))[:4]))
                 one = mk()
                 a1 = (one.count_leaf_tiles(), one.count_live_tiles(), one.count_operations())
                 v = []
